@@ -44,6 +44,12 @@ tree('T6', [Opt('sec', 'm', 'M', sub=[Opt('int', '0', '', 1), Opt('int', 'x', ''
 tree('T7', [Opt('sec', 'box', 'TN', sub=[Opt('int', 'x', '', 1)]), Opt('sec', 'out', 'M', sub=[Opt('sec', 'box', 'TN', sub=[Opt('int', 'x', '', 1)]), Opt('int', 'y', '', 2)]),
             Opt('int', 'i', '', 5)], b'box a { x = 3 } out { box a { x = 4 } } out { y = 6 }')
 
+# long names and titles: a step is as long as it is (names and titles of 31 / 32 / 33 / 64 / 65 / 300 bytes, each a prefix of the next)
+_L = lambda n: (b'section-name-' * 30)[:n]
+tree('T9', [Opt('sec', _L(n), 'M' if n % 2 else '', sub=[Opt('int', 'x', '', n), Opt('int', _L(n), '', 1)]) for n in (31, 32, 33, 64, 65, 300)] +
+           [Opt('sec', 'mt', 'MT', sub=[Opt('int', 'x', '', 1)])],
+     b' '.join(b'%s { x = %d }' % (_L(n), n + 1000) for n in (31, 32, 33, 64, 65, 300)) + b' ' + b' '.join(b'mt %s { x = %d }' % (_L(n), n) for n in (300, 65, 64, 33, 32, 31)))
+
 
 def model_tree(tid):
     sch, text, flags = TREES[tid]
@@ -325,8 +331,8 @@ def main():
             for ch in engine.chunks(two, 200):
                 shards.append((tid, ch, '2-defects', dl))
         engine.phase(ck, 'paths with two injected defects', shard_tree, shards, paths=nd)
-    ck.assumptions = ['UNSPEC paths (duplicated separators in the middle, non-decimal index spellings, text glued to a closing quote, '
-                      'letter case of titles, removal of a single section) are executed but not compared']
+    ck.assumptions = ['UNSPEC paths (duplicated separators in the middle, non-decimal index spellings, text glued to a closing quote, a quoted '
+                      'index) are executed but not compared']
     ck.finish('paths enumerated from the tree (every option x every qualifier form) and their systematically broken variants, short strings over '
               'the path alphabet; three cases per path (lookups, by-path setter, by-path remove); non-trivial = distinct resolving paths')
 
